@@ -314,3 +314,33 @@ def _implies_falsy(t: Term, pol: bool, operand: Term) -> bool:
     """Condition t having truth value pol implies... (helper: `not t` has value pol) -> operand truthy?"""
     # `not t` evaluates to pol  <=>  t evaluates to (not pol)
     return _implies_truthy(t, not pol, operand)
+
+
+
+def kernel_purity(check, fn, rule: str, construct: str, allowed: set[str]) -> bool:
+    """A numeric kernel (membership / compute / hedge / tsukamoto) is a function of its arguments and of the object's parameters
+    only: it neither writes attributes of self nor reads attributes other than the constructor parameters (and height)."""
+    import ast as _ast
+
+    from ..pm import unparse as _unparse
+
+    writes, reads = [], []
+    for x in _ast.walk(fn.analysis_node):
+        if isinstance(x, _ast.Attribute) and isinstance(x.value, _ast.Name) and x.value.id == "self":
+            if isinstance(x.ctx, (_ast.Store, _ast.Del)):
+                writes.append((x.lineno, x.attr))
+            elif x.attr not in allowed and not callable_attr(fn, x.attr):
+                reads.append((x.lineno, x.attr))
+    ok = not writes and not reads
+    check.require(ok, rule, construct,
+                  "the kernel depends only on its argument and the object's parameters (no state is read or written)" if ok else
+                  (f"the kernel writes `self.{writes[0][1]}` (line {writes[0][0]})" if writes else f"the kernel reads `self.{reads[0][1]}` (line {reads[0][0]})")
+                  + ", which is not a constructor parameter: the value then depends on earlier calls or on something other than the documented "
+                  "parameters (a stale cache after a parameter is re-assigned)", loc(fn))
+    return ok
+
+
+def callable_attr(fn, name: str) -> bool:
+    """self.<name> is a method / property of the class (not instance state)."""
+    c = fn.cls
+    return c is not None and (c.lookup(name) is not None or name in getattr(c, "getters", {}) or any(name in getattr(b, "getters", {}) for b in c.mro))
